@@ -3,13 +3,15 @@ package security
 // C02 — access cookies are accepted only if gateway-minted, unexpired and IdP-valid.
 
 import (
+	"time"
+
 	"github.com/bolkedebruin/rdpgw/cmd/rdpgw/identity"
 	"github.com/bolkedebruin/rdpgw/cmd/rdpgw/protocol"
 )
 
 //vp:property C02 C04
 //vp:set s 2 4
-//vp:bounds every cookie class: empty/non-empty string; not a JWS / JWS with 1..2 headers naming any of {HS256,none,HS384,HS512,RS256,""}; MAC made under any of the five gateway keys or a foreign key; issuer "rdpgw" or any string <= 5 bytes; exp/nbf/iat each absent or any second 1970..2200; now any second 2001..2100; IdP honours / refuses; claim strings of s bytes with symbolic content
+//vp:bounds every cookie class: empty/non-empty string; not a JWS / JWS with 1..2 headers naming any of {HS256,none,HS384,HS512,RS256,""}; MAC made under any of the five gateway keys or a foreign key; issuer "rdpgw" or any string <= 5 bytes; exp/nbf/iat each absent or any second 1970..2200; now any second 2001..2100; the tunnel connected at any earlier second; IdP honours / refuses; claim strings of s bytes with symbolic content
 //vp:assume go-jose contracts: ParseSigned enforces the allow-list; Claims(key) succeeds iff the MAC verifies under key and fills destinations from the verified payload; Validate is the real go-jose code
 //vp:reach accepted rejected-mac rejected-exp rejected-idp rejected-iss
 func VP_C02_verify() {
@@ -20,6 +22,10 @@ func VP_C02_verify() {
 	id := identity.NewUser()
 	id.SetUserName("before")
 	tun := &protocol.Tunnel{User: id, TargetServer: "T0", RemoteAddr: "R0"}
+	// the tunnel was connected at any instant up to the presentation of the cookie
+	connected := int64(vpU64("connected"))
+	vpAssume(connected >= 978307200 && connected <= vpCurTime)
+	tun.ConnectedOn = time.Unix(connected, 0)
 
 	ok, err := CheckPAACookie(vpCtxWith(tun, id), cookie)
 	vpObserveBool("ok", ok)
